@@ -671,6 +671,48 @@ def arith_stage(R, prop, tier):
     R.stage('arithmetic calls judged by Num.tla', calls=len(calls), relevant=len(mine), failures=nf)
 
 
+CLI_TOKENS = ['wigm', 'meek-prf', 'fixed', 'rational', 'report', 'dump', 'json', 'a.blt', 'b.blt', 'precision=4', 'precision=07', 'display=2',
+              'integer_quota=TRUE', 'integer_quota=no', 'defeat_batch=zero', 'arithmetic=guarded', 'rule=scotland', 'omega=', 'x=a=b', 'Yes', 'report=false']
+
+
+def cli_stage(R, tier):
+    "(M)+(S->C) CliArgs.tla: every argument list of up to 3 tokens parsed by the specification and by the real Options.parse"
+    import tempfile, shutil
+    from droop.options import Options
+    from droop.common import UsageError
+    feats = []
+    for t in CLI_TOKENS:
+        parts = t.split('=')
+        feats.append(dict(t=t, bare=len(parts) == 1, key=parts[0], val=parts[1] if len(parts) > 1 else '', low=(parts[1].lower() if len(parts) > 1 else '')))
+    tmp = tempfile.mkdtemp(prefix='vcli-')
+    try:
+        path = os.path.join(tmp, 'alpha.json')
+        json.dump(feats, open(path, 'w'))
+        cfg = 'INIT Init\nNEXT Next\nINVARIANT LastWins\nINVARIANT Exported\nCONSTANTS\n MAXLEN = 3\n EXPORT = %d\n' % (3 if tier == 'quick' else 1)
+        res = vlib.tlc('CliArgs', cfg, env={'ALPHA_FILE': path}, workers=8, heap_mb=2048, timeout=900)
+    finally:
+        shutil.rmtree(tmp, ignore_errors=True)
+    R.add_tlc(res)
+    viol = re.search(r'Invariant (\w+) is violated', res['out'])
+    if viol or 'Error:' in res['out']:
+        raise vlib.Machinery('CliArgs.tla: %s\n%s' % (viol.group(1) if viol else 'TLC error', res['out'][-2000:]))
+    cases = [json.loads(m.group(1).replace('\\"', '"').replace('\\\\', '\\')) for m in re.finditer(r'^"ARGCASE (.*)"\s*$', res['out'], re.M)]
+    nd = 0
+    for case in cases:
+        R.cov['traces_validated_against_impl'] += 1
+        try:
+            got = Options.parse(list(case['args']))
+            err = ''
+        except UsageError:
+            got, err = None, 'UsageError'
+        want = case['d'] if isinstance(case['d'], dict) else {}
+        if err != case['err'] or (not err and {k: optreplay.norm(v) for k, v in got.items()} != want):
+            nd += 1
+            R.violation('C17: command-line arguments %s parse as %s, the specification of Options.parse gives %s %s' % (case['args'], got if not err else err, want, case['err']),
+                        dict(args=case['args'], observed=str(got), expected=want))
+    R.stage('CliArgs.tla: argument lists parsed by spec and by Options.parse', distinct_states=res['distinct'], cases=len(cases), differences=nd)
+
+
 OPT_CFG = ('INIT Init\nNEXT Next\nINVARIANT StatutoryImmune\nINVARIANT Precedence\nINVARIANT Reported\nINVARIANT Exported\nCONSTANTS\n'
            ' RULESET = {%s}\n MAXACTIVE = %d\n EXPORT = %d\n')
 
@@ -686,6 +728,7 @@ def options_stage(R, prop, tier):
         raise vlib.Machinery('Options.tla: invariant %s violated in the specification itself (SPEC-DIVERGENCE to be triaged):\n%s' % (viol.group(1), res['out'][-2000:]))
     if 'Error:' in res['out']:
         raise vlib.Machinery('TLC error in Options.tla:\n' + res['out'][-2500:])
+    cli_stage(R, tier)
     cases = optreplay.cases_of(res['out'])
     nd = 0
     for case in cases:
